@@ -11,6 +11,7 @@ no paired reads), so the configured-filter pileup *is* what the engine must retu
 """
 from __future__ import annotations
 
+from collections import Counter
 import gzip
 import os
 import shutil
@@ -165,7 +166,7 @@ def cli_case(r, contig_names, n_bam):
     return contigs, sites, bams
 
 
-def pick_regions(r, contigs):
+def pick_regions(r, contigs, nested=False):
     """disjoint intervals per contig in genome order; the first / last base of a contig is included in most cases"""
     out = []
     for c, seq in contigs.items():
@@ -181,6 +182,13 @@ def pick_regions(r, contigs):
             a2 = a if a == 0 else min(b - 1, a + r.randint(0, 2))
             b2 = b if b == L else max(a2 + 1, b - r.randint(0, 2))
             out.append((c, a2, b2))
+            # now and then a target is followed by one nested in it (a gene and one of its exons) or by one that overlaps its
+            # end: every position of every target is still a target position
+            if nested and b2 - a2 >= 6 and r.random() < 0.5:
+                x = r.randint(a2, b2 - 3)
+                out.append((c, x, r.randint(x + 1, b2 - 2)))
+            elif nested and b2 - a2 >= 4 and b2 + 2 <= L and r.random() < 0.3:
+                out.append((c, r.randint(a2 + 1, b2 - 1), min(L, b2 + r.randint(1, 5))))
     return out
 
 
@@ -283,7 +291,10 @@ def cli_stream(chk, ctx, r, work, tier):
         else:
             bam_args = [S.write_text(os.path.join(d, "bams.tsv"), "".join(f"{names[j]}\t{paths[j]}\n" for j in order))]
         # ---- targets
-        regions = pick_regions(r, contigs)
+        regions = pick_regions(r, contigs, nested=r.random() < 0.4)
+        cover = Counter((c, p) for c, a, b in regions for p in range(a, b))
+        overlapping = any(v > 1 for v in cover.values())
+        chk.count("cli2:targets-nested-or-overlapping" if overlapping else "cli2:targets-disjoint")
         text = "".join(f"{c}\t{a}\t{b}" + (f"\tt{k}" if bed_cols == 4 else "") + "\n" for k, (c, a, b) in enumerate(regions))
         if bed_comment:
             text = r.choice(["#chrom\tstart\tend" + ("\tname" if bed_cols == 4 else "") + "\n", "# targets of run 7\n"]) + text
@@ -349,12 +360,16 @@ def cli_stream(chk, ctx, r, work, tier):
         if cols != [names[j] for j in order]:
             chk.count("cli2:sample-columns-not-in-argument-order")
         order = [names.index(x) for x in cols]           # column k holds the sample of BAM order[k]
-        by_pos = {}
+        by_pos, n_seen = {}, {}
         dup = False
         for rec in recs:
             k = (rec["CHROM"], rec["POS"] - 1)
-            dup = dup or k in by_pos
-            by_pos[k] = parse_impl_record(rec)
+            pr_ = parse_impl_record(rec)
+            if k in by_pos:
+                # a position that lies in several targets may be reported once per target, with one and the same content
+                n_seen[k] = n_seen.get(k, 1) + 1
+                dup = dup or n_seen[k] > cover.get(k, 0) or by_pos[k] != pr_
+            by_pos[k] = pr_
         inside = {(c, p) for c, a, b in regions for p in range(a, b)}
         if dup or not set(by_pos) <= inside:
             chk.violation("a record lies outside the targets or a position was emitted twice",
